@@ -608,6 +608,7 @@ func c07R5(p *Prog, r *Report) {
 	} else {
 		r.Unresolved("builder.(*Map).Assign")
 	}
+	wrapErrorsLastRule(p, r)
 	// ErrorElement kinds in WrapErrorsUsing
 	bp := p.Pkg("builder")
 	if tn, ok := bp.Types.Scope().Lookup("ErrorElement").(*types.TypeName); ok {
